@@ -1,1 +1,76 @@
-From OPF Require Import Model.Sup.
+From Coq Require Import ZArith List Permutation.
+From OPF Require Import Base.Lists Model.Sup Proofs.Predict.
+Import ListNotations.
+
+(* C03 - supervised / semi-supervised prediction equals the exhaustive minimum of
+   max(cost, distance).  [nd] is any node table (SupervisedOPF and SemiSupervisedOPF share the
+   predict code); the two premises on the conquest order are what training delivers
+   (C01_sup_fit_optimum_path_forest, first two conjuncts).  [d k] is the distance between
+   training sample k and the query. *)
+
+(* The scan as coded returns the predicted label of a training sample t that minimises
+   max(cost t, d t) over ALL training samples; t is recorded as the conqueror, and it is the
+   first minimiser in conquest order (position i). *)
+Theorem C03_predict_is_argmin :
+  forall (zero : Z) (nd : @nodes Z) (d : nat -> Z),
+    let n := length (n_cost nd) in
+    let cost q := nth q (n_cost nd) zero in
+    let val q := Z.max (cost q) (d q) in
+    let plabel q := nth q (n_plabel nd) 0%nat in
+    (1 <= n)%nat ->
+    Permutation (n_order nd) (seq 0 n) ->
+    (forall i j, (i < j)%nat -> (j < n)%nat ->
+       (cost (nth i (n_order nd) 0%nat) <= cost (nth j (n_order nd) 0%nat))%Z) ->
+    exists t i,
+      (t < n)%nat /\
+      predict_one Z.ltb zero nd d = (plabel t, Some t) /\
+      (forall s, (s < n)%nat -> (val t <= val s)%Z) /\
+      (i < n)%nat /\ nth i (n_order nd) 0%nat = t /\
+      (forall i', (i' < i)%nat -> (val t < val (nth i' (n_order nd) 0%nat))%Z).
+Proof. exact predict_is_argmin. Qed.
+
+Theorem C03_predict_label_is_argmin :
+  forall (zero : Z) (nd : @nodes Z) (d : nat -> Z),
+    let n := length (n_cost nd) in
+    let cost q := nth q (n_cost nd) zero in
+    let val q := Z.max (cost q) (d q) in
+    (1 <= n)%nat ->
+    Permutation (n_order nd) (seq 0 n) ->
+    (forall i j, (i < j)%nat -> (j < n)%nat ->
+       (cost (nth i (n_order nd) 0%nat) <= cost (nth j (n_order nd) 0%nat))%Z) ->
+    exists t, (t < n)%nat /\
+      fst (predict_one Z.ltb zero nd d) = nth t (n_plabel nd) 0%nat /\
+      snd (predict_one Z.ltb zero nd d) = Some t /\
+      forall s, (s < n)%nat -> (val t <= val s)%Z.
+Proof. exact predict_label_is_argmin. Qed.
+
+(* The early exit never changes the result: the scan as coded equals the same scan without the
+   test on the next node's cost ([predict_one_full], Proofs/Predict.v), and both equal the
+   specification "first minimiser of max(cost, d) along the conquest order". *)
+Theorem C03_early_exit_sound :
+  forall (zero : Z) (nd : @nodes Z) (d : nat -> Z),
+    let n := length (n_cost nd) in
+    let cost q := nth q (n_cost nd) zero in
+    let val q := Z.max (cost q) (d q) in
+    (1 <= n)%nat ->
+    length (n_order nd) = n ->
+    (forall i j, (i < j)%nat -> (j < n)%nat ->
+       (cost (nth i (n_order nd) 0%nat) <= cost (nth j (n_order nd) 0%nat))%Z) ->
+    predict_one Z.ltb zero nd d = predict_one_full Z.ltb zero nd d /\
+    predict_one Z.ltb zero nd d =
+      (nth (first_minimiser val (n_order nd)) (n_plabel nd) 0%nat,
+       Some (first_minimiser val (n_order nd))).
+Proof. exact early_exit_sound. Qed.
+
+(* An equidistant query on the trained forest of C01_example_result: samples 2 (label 0) and
+   3 (label 1) both offer the minimum value 1; the first in conquest order [2;3;1;4;0] wins. *)
+Theorem C03_example_equidistant :
+  let nd := mkNodes [2; 2; 0; 0; 2]%Z [Some 1; Some 2; None; None; Some 3]%nat [0; 0; 0; 1; 1]%nat
+              [0; 0; 0; 1; 1]%nat [false; false; true; true; false]
+              [false; false; false; false; false] [2; 3; 1; 4; 0]%nat in
+  let d k := nth k [5; 3; 1; 1; 4]%Z 0%Z in
+  predict_one Z.ltb 0%Z nd d = (0%nat, Some 2%nat) /\
+  predict_one_full Z.ltb 0%Z nd d = (0%nat, Some 2%nat) /\
+  map (fun q => Z.max (nth q (n_cost nd) 0%Z) (d q)) (seq 0 5) = [5; 3; 1; 1; 4]%Z /\
+  nth 2 (n_plabel nd) 0%nat = 0%nat /\ nth 3 (n_plabel nd) 0%nat = 1%nat.
+Proof. exact ex_equidistant_props. Qed.
